@@ -158,7 +158,9 @@ class CliFailures(Stream):
             r = run_cli(d, files)
         shutil.rmtree(d, ignore_errors=True)
         # the same universe through the in-memory repository, for the region
-        run = SS.Run(dict(case, universe={n: vs for n, vs in case["universe"].items()}))
+        # (releases whose files are all unreadable are not on offer)
+        bad = {(n, v) for n, v in case["corrupt"]}
+        run = SS.Run(dict(case, universe={n: {v: rs for v, rs in vs.items() if (n, v) not in bad} for n, vs in case["universe"].items()}))
         r["region"] = run.region()
         r["mem_outcome"] = run.outcome
         return r
@@ -262,8 +264,10 @@ class CliFailures(Stream):
         if kind == "unworkable" and offered:
             # "which truly no offered candidate satisfies": a readable release is on offer; giving up is only in order
             # after the configured number (3) of distinct releases with unreadable metadata
+            # ... in a history without walk-back: there the requirement that failed carries temporary exclusions of
+            # releases already tried (the diagnostic does not print them), and "no working candidate" is said of what is left
             bad_releases = {v for n, v in case["corrupt"] if GL.norm(n) == key}
-            if len(bad_releases) < 3:
+            if len(bad_releases) < 3 and region == "clean":
                 fails.append(("C09/says-no-working-candidate-but-a-readable-one-is-offered/" + region, {"project": key, "readable": offered, "unreadable releases": sorted(bad_releases)}))
         if kind in ("unsatisfied", "impossible"):
             try:
